@@ -4,6 +4,8 @@ import (
 	"context"
 	"fmt"
 	"net"
+	"os"
+	"sync"
 	"time"
 
 	"github.com/datastax/go-cassandra-native-protocol/client"
@@ -11,10 +13,14 @@ import (
 	"github.com/datastax/go-cassandra-native-protocol/message"
 	"github.com/datastax/go-cassandra-native-protocol/primitive"
 	"github.com/rs/zerolog"
+	"verif/simrt"
 )
 
 func init() {
 	zerolog.SetGlobalLevel(zerolog.Disabled)
+	if os.Getenv("VERIF_LOG") != "" { // debugging aid only; logging never draws from the tape
+		zerolog.SetGlobalLevel(zerolog.ErrorLevel)
+	}
 }
 
 var allVersions = []primitive.ProtocolVersion{
@@ -111,3 +117,35 @@ func (d doneChan) isDone() bool {
 }
 
 func ms(n int) time.Duration { return time.Duration(n) * time.Millisecond }
+
+// Cond is a deterministic condition variable for harness tasks: waiters block on one signal channel
+// and re-evaluate their predicate (while holding the baton) after every wake-up, so the outcome
+// never depends on which case of a multi-way select the Go runtime would have picked.
+type Cond struct {
+	mu  sync.Mutex
+	sig chan struct{}
+}
+
+func NewCond() *Cond { return &Cond{sig: make(chan struct{})} }
+
+// Bump wakes all waiters.
+func (c *Cond) Bump() {
+	c.mu.Lock()
+	close(c.sig)
+	c.sig = make(chan struct{})
+	c.mu.Unlock()
+}
+
+// Wait blocks the calling harness task until pred() holds.
+func (c *Cond) Wait(pred func() bool) {
+	for {
+		c.mu.Lock()
+		s := c.sig
+		c.mu.Unlock()
+		if pred() {
+			return
+		}
+		<-s
+		simrt.Yield("h:cond.wake")
+	}
+}
